@@ -154,7 +154,16 @@ def b_hasattr(ex, state, args, kwargs, sv):
         if ob.cls is not None and ob.cls.info is not None:
             c, m = ob.cls.info.find_method(name)
             c2, a2 = ob.cls.info.find_attr(name)
-            return VBool(m is not None or a2 is not None)
+            if m is not None or a2 is not None:
+                return VBool(True)
+        if ob.shape is not None and ob.kind == "inst":
+            if name in getattr(ex.reg.shapes[ob.shape], "absent", ()):
+                return VBool(False)         # the shape *declares* the object not to carry this attribute
+            if getattr(ex.reg.shapes[ob.shape], "open_attrs", False):
+                # an instance of a class the contract knows nothing about (a user's exception class ...): either answer
+                return VBool(z3.Bool(fresh_name("hasattr_" + name)))
+            raise Unsupported("hasattr(obj, %r): attribute not declared in shape %s (absence cannot be concluded)"
+                              % (name, ob.shape))
         return VBool(False)
     if isinstance(o, VFunc):
         return VBool(z3.Bool(fresh_name("hasattr_func")))
@@ -178,6 +187,10 @@ def b_getattr(ex, state, args, kwargs, sv):
                     c2, a2 = ob.cls.info.find_attr(name)
                     if m is not None or a2 is not None:
                         return ex.getattr_atom(state, o, name)
+                if ob.shape is not None and ob.kind == "inst":
+                    # an object *declared* by the contract (its shape lists the fields the contract talks about, not all
+                    # the attributes the real object may carry): "absent" cannot be concluded for an undeclared name
+                    raise Unsupported("getattr(%s, %r, default): attribute not declared in shape %s" % ("obj", name, ob.shape))
                 return args[2]
             if isinstance(o, VOpaque):
                 return VOpaque()
